@@ -143,25 +143,38 @@ def kind_of(s):
     return None
 
 
+MIN_BUDGET_S = 40          # per sequence
+MIN_TOTAL_S = [150.0]      # per run, shared
+
+
 def minimise(runner, ops, kind):
-    """greedy one-at-a-time removal of mutators (from the end), keeping the failure kind"""
+    """delta debugging on the mutators (chunks n/2, n/4, ..., 1, removed from the end backwards), keeping the
+    failure kind; bounded by a time budget so that big sequences (class `batch`) cannot stall the check"""
     # keep the mutators and, if the failing op is an observer (last op of the cut), that observer
     ops = [o for i, o in enumerate(ops) if o[0] in MUTATORS or i == len(ops) - 1]
+    t_end = time.time() + min(MIN_BUDGET_S, max(MIN_TOTAL_S[0], 5.0))
+    t_start = time.time()
     r = runner.run([("m", ops)])
     if r is None or kind_of(r["m"]) != kind:
         return ops, r["m"] if r else None, False
     best = r["m"]
-    for _pass in range(3):
-        n0 = len(ops)
-        i = len(ops) - 1
-        while i >= 0:
-            cand = ops[:i] + ops[i + 1:]
-            r = runner.run([("m", cand)])
-            if r is not None and kind_of(r["m"]) == kind:
-                ops, best = cand, r["m"]
-            i -= 1
-        if len(ops) == n0:
+    chunk = max(1, len(ops) // 2)
+    while time.time() < t_end:
+        removed = False
+        i = len(ops)
+        while i > 0 and time.time() < t_end:
+            lo = max(0, i - chunk)
+            cand = ops[:lo] + ops[i:]
+            if cand and len(cand) < len(ops):
+                r = runner.run([("m", cand)])
+                if r is not None and kind_of(r["m"]) == kind:
+                    ops, best, removed = cand, r["m"], True
+            i = lo
+        if chunk == 1 and not removed:
             break
+        if not removed or chunk > 1:
+            chunk = max(1, chunk // 2)
+    MIN_TOTAL_S[0] -= time.time() - t_start
     return ops, best, True
 
 
